@@ -102,6 +102,58 @@ fn run_alone(h: &History) -> Vec<String> {
     t
 }
 
+/// What `vcheck --c19-child` (phase F) is given: histories to execute first, each on an App of its own,
+/// and the history whose transcript is wanted.
+#[derive(Serialize, Deserialize)]
+pub struct ChildJob {
+    pub before: Vec<History>,
+    pub history: History,
+}
+
+/// The transcript of `job.history` in the current process, after `job.before`.
+pub fn child_transcript(job: ChildJob) -> Vec<String> {
+    std::thread::Builder::new()
+        .stack_size(64 << 20)
+        .spawn(move || {
+            for h in &job.before {
+                let _ = run_alone(h);
+            }
+            run_alone(&job.history)
+        })
+        .unwrap()
+        .join()
+        .unwrap_or_else(|_| vec!["<panicked>".into()])
+}
+
+/// Phase F: the history in a *fresh process*, after the given other histories (none: nothing else has
+/// ever happened in that process).
+fn run_in_fresh_process(before: &[&History], h: &History) -> Result<Vec<String>, Failure> {
+    static N: std::sync::atomic::AtomicU64 = std::sync::atomic::AtomicU64::new(0);
+    let n = N.fetch_add(1, std::sync::atomic::Ordering::Relaxed);
+    let base = std::env::temp_dir().join(format!("vc19-{}-{}", std::process::id(), n));
+    let (inp, outp) = (base.with_extension("in.json"), base.with_extension("out.json"));
+    let io = |e: std::io::Error| Failure::new("harness:c19-child", format!("fresh-process run: {}", e));
+    std::fs::write(&inp, serde_json::to_vec(&ChildJob { before: before.iter().map(|x| (*x).clone()).collect(), history: h.clone() }).unwrap()).map_err(io)?;
+    let exe = std::env::current_exe().map_err(io)?;
+    let status = std::process::Command::new(exe).arg("--c19-child").arg(&inp).arg(&outp).stdout(std::process::Stdio::null()).stderr(std::process::Stdio::null()).status();
+    let res = status.map_err(io).and_then(|st| {
+        if !st.success() {
+            return Err(Failure::new("harness:c19-child", format!("fresh-process run exited with {:?}", st.code())));
+        }
+        let bytes = std::fs::read(&outp).map_err(io)?;
+        serde_json::from_slice::<Vec<String>>(&bytes).map_err(|e| Failure::new("harness:c19-child", format!("fresh-process transcript unreadable: {}", e)))
+    });
+    let _ = std::fs::remove_file(&inp);
+    let _ = std::fs::remove_file(&outp);
+    res
+}
+
+/// explicit code ids beyond 32 bits (anything that narrows an id is exercised by them)
+fn has_wide_ids(h: &History) -> bool {
+    let wide = |c: &CodeSpec| matches!(c.how, StoreHow::WithId(id) if id > u32::MAX as u64);
+    h.setup.codes.iter().any(wide) || h.txs.iter().any(|t| matches!(&t.kind, TxKind::Store(c) if wide(c)))
+}
+
 fn first_diff(a: &[String], b: &[String]) -> Option<(usize, String, String)> {
     for i in 0..a.len().max(b.len()) {
         let (x, y) = (a.get(i).cloned().unwrap_or_default(), b.get(i).cloned().unwrap_or_default());
@@ -124,7 +176,7 @@ impl Check for DetCheck {
         Spec {
             id: "C19",
             level: "exploration",
-            rule: "generated: a tree-engine history (setup, code stores incl. duplicates and explicit ids, instantiate/instantiate2, nested message trees with failures, block updates, queries) plus a second unrelated history; the first is executed (A) alone on a fresh App, (B) interleaved step by step with the second history on two other Apps (one with another bech32 prefix, one with the same prefix, hence the same addresses and ids) in the same thread and with a further App whose Api is the other checksum variant with the same prefix and which keeps validating the Bech32m spellings of the users' addresses, (D) in a second OS thread concurrently with a third thread running the second history, and (A') alone again afterwards; transcripts (Ok/Err, events, data, invocation traces, code ids, addresses, checksums, storage digest per step and final) must be identical. Non-trivial: history with >=1 failing call, >=1 classic instantiation and >=1 code stored after setup, interleaved with >=5 steps of the other instance; distinct = distinct serialised case",
+            rule: "generated: a tree-engine history (setup, code stores incl. duplicates and explicit ids, instantiate/instantiate2, nested message trees with failures, block updates, queries) plus a second unrelated history; the first is executed (A) alone on a fresh App, (B) interleaved step by step with the second history on two other Apps (one with another bech32 prefix, one with the same prefix, hence the same addresses and ids) in the same thread and with a further App whose Api is the other checksum variant with the same prefix and which keeps validating the Bech32m spellings of the users' addresses, (D) in a second OS thread concurrently with a third thread running the second history, (A') alone again afterwards, and - one case in eight, and whenever explicit code ids exceed 32 bits - (F) alone in a fresh process and in a fresh process after the second history; in a quarter of the cases the second history is the first one with explicit code ids narrowed to 32 or 8 bits; before (A) the second history has been executed in the same process (P); transcripts (Ok/Err, events, data, invocation traces, code ids, addresses, checksums, storage digest per step and final) must be identical. Non-trivial: history with >=1 failing call, >=1 classic instantiation and >=1 code stored after setup, interleaved with >=5 steps of the other instance; distinct = distinct serialised case",
             assumptions: vec!["only Ok/Err is compared for errors, not error text", "a dependence on state no generated operation touches, or on wall-clock time at a coarser grain than one run, is not observable"],
             floor_quick: 60,
         }
@@ -142,11 +194,30 @@ impl Check for DetCheck {
         let hint = hint_contracts();
         let refs: Vec<&str> = hint.iter().map(|s| s.as_str()).collect();
         let history = gen_history(g, &self.profile, &refs);
-        let other = gen_history(g, &self.profile, &refs);
+        let mut other = gen_history(g, &self.profile, &refs);
+        // sometimes the other instance is a sibling of the one under test: the same history (same ids, same
+        // addresses, same keys), with explicit code ids narrowed to their low 32 / 8 bits
+        if g.chance(1, 4) {
+            other = history.clone();
+            let bits = if g.bool() { 32 } else { 8 };
+            let narrow = |c: &mut CodeSpec| {
+                if let StoreHow::WithId(id) = &mut c.how {
+                    *id &= (1u64 << bits) - 1;
+                }
+            };
+            other.setup.codes.iter_mut().for_each(narrow);
+            for t in other.txs.iter_mut() {
+                if let TxKind::Store(c) = &mut t.kind {
+                    narrow(c);
+                }
+            }
+        }
         Case { history, other }
     }
 
     fn execute(&self, case: &Case, cx: &mut Cx) -> Result<(), Failure> {
+        // P: another instance has been busy in this process before the one under test is even built
+        let _ = run_alone(&case.other);
         // A: alone
         let ta = run_alone(&case.history);
         // B: interleaved with another instance in the same thread
@@ -203,6 +274,19 @@ impl Check for DetCheck {
         let ta2 = run_alone(&case.history);
         if let Some((i, x, y)) = first_diff(&ta, &ta2) {
             return Err(Failure::new("C19:rerun-differs", format!("step {}: first run: {} | re-run: {}", i, x, y)));
+        }
+        // F: alone in a fresh process, where no other instance has ever existed, against a fresh process in which
+        // the other history ran first (one case in eight, and every history with code ids beyond 32 bits)
+        let pick = fnv(&serde_json::to_vec(&case.history).unwrap_or_default()) % 8 == 0;
+        if pick || has_wide_ids(&case.history) {
+            // (both sides run in processes of their own, so that the verdict is a function of the case alone:
+            // this process has seen thousands of other cases)
+            let tf = run_in_fresh_process(&[], &case.history)?;
+            let tp = run_in_fresh_process(&[&case.other], &case.history)?;
+            cx.label("fresh-process-run");
+            if let Some((i, x, y)) = first_diff(&tf, &tp) {
+                return Err(Failure::new("C19:fresh-process-differs", format!("step {}: alone in a fresh process: {} | in a fresh process in which another instance has been busy before: {}", i, x, y)));
+            }
         }
         // classification
         let failing = ta.iter().any(|s| s.starts_with("ok=false"));
